@@ -51,13 +51,18 @@ def build_files(lines, cuts):
     return files, valid
 
 
+def lines_of(text):
+    """Lines the way the tool's reader sees them: terminated by a newline only (no form feed, no NEL, no U+2028)."""
+    return [l + "\n" for l in text.split("\n")[:-1]] + ([text.split("\n")[-1]] if text.split("\n")[-1] else [])
+
+
 def textual_expand(files, path, depth=0):
     """The property's own definition: replace every INCLUDE line by the lines of the named file, recursively.
     Paths are relative to the working directory.  (Only used on layouts without a missing file or a cycle.)"""
     out = []
     if depth > 8:
         raise ValueError("include depth")
-    for line in files[path].splitlines(keepends=True):
+    for line in lines_of(files[path]):
         parts = line.split(";")[0].split()
         if len(parts) == 2 and parts[0].upper() == "INCLUDE" and line[:1] in " \t":
             out.extend(textual_expand(files, key_of(parts[1]), depth + 1))
@@ -126,6 +131,10 @@ class C19(object):
                         c["a"] += 1
                     if c["b"] > where or (c["b"] == where and c["a"] < where and rng.chance(0.5)):
                         c["b"] += 1
+        # characters that some line-splitting conventions (str.splitlines) treat as line ends, inside comments
+        if rng.chance(0.08):
+            k = rng.below(len(lines))
+            lines[k] = lines[k].rstrip("\n") + " ; page" + rng.choice(["\x0c", "\x0b", "\x1c", "\x1d", "\x85", "\u2028"]) + "break here\n"
         # END is only a marker: statements after it (in the includer or in the same file) are still assembled
         if rng.chance(0.2) and len(lines) > 2:
             lines.insert(rng.randint(1, len(lines) - 1), " END \n")
